@@ -4,6 +4,7 @@ import (
 	"fmt"
 	"go/constant"
 	"go/token"
+	"go/types"
 	"strings"
 
 	"gmslverif/fw"
@@ -13,172 +14,566 @@ import (
 
 func init() { register("C20", checkC20) }
 
+func isVerifySignature(n string) bool { return strings.HasSuffix(n, "Macaroon).VerifySignature") }
+func isAddCaveat(n string) bool       { return strings.HasSuffix(n, "Macaroon).AddFirstPartyCaveat") }
+
 func checkC20(c *fw.Ctx) {
-	c.Explanation = "C20 (static): ValidateToken's success is gated on decoding, VerifySignature under the configured secret and verifyCaveats for the configured user; the caveat verifier's bit arithmetic is extracted: each of the three required caveat classes (generation, user, expiry) contributes its own bit under its own condition, the success constant equals the OR of exactly those bits and the 'unknown caveat' bit lies outside it; issuer and validator use the same caveat constants, the macaroon id is the user id that GetUserFromToken returns; both sides read an absolute clock (time.Now().Unix()) and the issued expiry is exactly now + duration with the 120 s default applied iff no duration was given; the expiry comparison is strict."
-	c.NotDecidedClause("HMAC soundness of the macaroon library; behaviour at particular instants")
+	c.Explanation = "C20 (static): ValidateToken's success is gated on decoding, VerifySignature under the configured secret and verifyCaveats for the configured user (arguments followed through extracted helpers); the caveat verifier's accumulator is extracted: each of the three required caveat classes (generation, user, expiry) contributes its own bit under its own condition, the success constant equals the OR of exactly those bits and the 'unknown caveat' bit lies outside it (a counting accumulator is refused: repeating one class reaches the count); issuer and validator use the same caveat constants, the issued caveats derive from the generation constant, the user prefix + the given user and the time prefix + clock; the macaroon id is the user id that GetUserFromToken returns; both sides read the absolute clock (time.Now().Unix(), no rounding or field accessors) and the 120 s default applies iff no duration was given; the expiry comparison is strict."
+	c.NotDecidedClause("HMAC soundness of the macaroon library; behaviour at particular instants; that the duration is added unscaled")
 	c.NotDecidedClause("known and outside this check: one satisfied time caveat suffices (a holder may append a later one); a non-matching extra user_id caveat is ignored")
-	// 1. gates
-	if fn := mustFunc(c, "1 gates", "tokens.ValidateToken"); fn != nil {
-		succ := fw.ErrNilSuccess(fn, fw.ErrIndex(fn), nil)
-		c.CheckGate("1 gates", fn, "ValidateToken", fw.GuardCallErrNil("deSerializeMacaroon", fw.NameIs("gmsl/tokens.deSerializeMacaroon")), succ)
-		c.CheckGate("1 gates", fn, "ValidateToken", fw.GuardCallErrNil("VerifySignature", func(n string) bool { return strings.HasSuffix(n, "Macaroon).VerifySignature") }), succ)
-		c.CheckGate("1 gates", fn, "ValidateToken", fw.GuardCallErrNil("verifyCaveats", fw.NameIs("gmsl/tokens.verifyCaveats")), succ)
-		for _, call := range fw.CallsTo(fn, false, func(n string) bool { return strings.HasSuffix(n, "Macaroon).VerifySignature") }) {
-			s := argSigs(call)
-			c.Check(strings.HasSuffix(s[1], "param:op.ServerPrivateKey"), "1 gates", "the signature is verified under the configured secret", c.P.Pos(call.Pos()), "", "VerifySignature key is "+s[1])
+	c20Gates(c)
+	c20Mask(c)
+	c20Expiry(c)
+	c20Issuer(c)
+	c20Clock(c)
+	c20Fresh(c)
+}
+
+// 6. every token is built on a macaroon of its own: the object that receives the caveats is
+// created (macaroon.New) or copied (Clone) by this call and is not also published to state
+// that outlives the call (a package-level variable, a sync.Map, a map or slice held in one):
+// otherwise the caveats of one token accumulate on the macaroon of the next.
+func c20Fresh(c *fw.Ctx) {
+	rule := "6 fresh-macaroon"
+	fn := mustFunc(c, rule, "tokens.GenerateLoginToken")
+	if fn == nil {
+		return
+	}
+	isNew := fw.IsResultOf(fw.NameIs("gopkg.in/macaroon.v2.New"), -1)
+	isClone := fw.IsResultOf(func(n string) bool { return strings.HasSuffix(n, "Macaroon).Clone") }, -1)
+	n := 0
+	for _, dc := range fw.DeepCalls(fn, isAddCaveat, nil) {
+		args := dc.Call.Common().Args
+		if len(args) < 1 {
+			continue
 		}
-		for _, call := range fw.CallsTo(fn, false, fw.NameIs("gmsl/tokens.verifyCaveats")) {
-			s := argSigs(call)
-			c.Check(strings.Contains(s[0], "VerifySignature(") && strings.HasSuffix(s[0], "#0") && strings.HasSuffix(s[1], "param:op.UserID"), "1 gates", "the verified caveats are checked for the configured user", c.P.Pos(call.Pos()), "", "verifyCaveats("+strings.Join(s, ", ")+")")
+		n++
+		var news, shared []ssa.Value
+		fw.DerivesFromIn(args[0], dc.Fr, fw.FlowSpec{IsSource: func(v ssa.Value) bool {
+			switch {
+			case isClone(v):
+				return false
+			case isNew(v):
+				news = append(news, v)
+			default:
+				if g, ok := v.(*ssa.Global); ok {
+					shared = append(shared, g)
+				}
+				if call, _ := fw.CallOf(v); call != nil && strings.HasPrefix(fw.CalleeName(call), "(*sync.Map).Load") {
+					shared = append(shared, v)
+				}
+			}
+			return false
+		}})
+		pos := c.P.Pos(dc.Call.Pos())
+		construct := "caveats are added to a macaroon owned by this call (" + fw.FuncName(dc.Call.Parent()) + ")"
+		bad := ""
+		for _, v := range shared {
+			bad = "the macaroon that receives the caveat is read from shared state (" + fw.Sig(v) + ") without being copied"
+		}
+		for _, v := range news {
+			if esc := escapesToShared(v); esc != "" {
+				bad = "the macaroon created here is also published to " + esc + ": later calls that reuse it see the caveats added by this one (a later token carries an earlier token's expiry)"
+			}
+		}
+		if bad != "" {
+			c.Fail(rule, construct, pos, bad)
+		} else {
+			c.Ok(rule, construct, pos, fmt.Sprintf("%d creation sites, none published", len(news)))
 		}
 	}
-	// 2. mask arithmetic
-	if fn := mustFunc(c, "2 caveat-mask", "tokens.verifyCaveats"); fn != nil {
-		type bit struct {
-			val  int64
-			cond fw.DNF
-			pos  string
+	c.Min(rule+" caveat sites", n, 1)
+}
+
+// escapesToShared: the value (or an interface / pointer copy of it) is stored into a
+// package-level variable, a sync.Map, or a map / slice loaded from a package-level variable.
+func escapesToShared(v ssa.Value) string {
+	seen := map[ssa.Value]bool{}
+	var walk func(x ssa.Value, d int) string
+	walk = func(x ssa.Value, d int) string {
+		if d > 6 || seen[x] || x.Referrers() == nil {
+			return ""
 		}
-		var bits []bit
-		// contributions to the mask: `mask |= const` under a condition, or `mask |= helper(...)`
-		// where the helper returns constants under conditions (entered, parameters substituted)
-		for _, b := range fn.Blocks {
-			for _, ins := range b.Instrs {
-				bo, ok := ins.(*ssa.BinOp)
-				if !ok || bo.Op != token.OR {
-					continue
+		seen[x] = true
+		for _, ref := range *x.Referrers() {
+			switch r := ref.(type) {
+			case *ssa.Extract, *ssa.MakeInterface, *ssa.ChangeType, *ssa.Phi, *ssa.ChangeInterface:
+				if s := walk(r.(ssa.Value), d+1); s != "" {
+					return s
 				}
-				here, okC := fw.CondAt(nil, b)
-				if !okC {
-					c.Undecided("2 caveat-mask", "mask contributions", "path condition too large")
-					continue
+			case *ssa.Store:
+				if r.Val == x {
+					if rootIsGlobal(r.Addr) {
+						return "the package-level variable " + fw.Sig(r.Addr)
+					}
 				}
-				for _, opnd := range []ssa.Value{bo.X, bo.Y} {
-					if n, isC := fw.ConstInt(opnd); isC {
-						bits = append(bits, bit{n, here, c.P.Pos(fw.InstrPos(bo))})
-						continue
-					}
-					call, isCall := opnd.(*ssa.Call)
-					if !isCall {
-						continue
-					}
-					callee := fw.Followable(call, nil)
-					if callee == nil {
-						continue
-					}
-					fr := &fw.Frame{Site: call, Callee: callee}
-					fw.WithSubst(fr.Subst(), func() {
-						t, err := fw.ExtractTable(callee, 0)
-						if err != nil {
-							c.Undecided("2 caveat-mask", "mask contributions", err.Error())
-							return
-						}
-						for _, r := range t.Rows {
-							n, isC := fw.ConstInt(r.Val)
-							if !isC {
-								c.Undecided("2 caveat-mask", "mask contributions", "the helper "+fw.FuncName(callee)+" returns a non-constant mask "+r.Outcome)
-								continue
-							}
-							if n == 0 {
-								continue
-							}
-							bits = append(bits, bit{n, andAll(here, r.Cond), c.P.Pos(fw.InstrPos(r.Ret))})
-						}
-					})
+			case *ssa.MapUpdate:
+				if r.Value == x && rootIsGlobal(r.Map) {
+					return "a package-level map"
+				}
+			case ssa.CallInstruction:
+				name := fw.CalleeName(r)
+				if strings.HasPrefix(name, "(*sync.Map).") && (strings.HasSuffix(name, "Store") || strings.HasSuffix(name, "LoadOrStore") || strings.HasSuffix(name, "Swap")) {
+					return "a sync.Map (" + name + ")"
 				}
 			}
 		}
-		// a class holds for a contribution when every way of reaching it establishes the class's atoms
-		every := func(d fw.DNF, want ...lit) bool {
-			if len(d) == 0 {
-				return false
-			}
-			for _, term := range d {
-				for _, w := range want {
-					if !termHas(term, w) {
-						return false
-					}
-				}
-			}
+		return ""
+	}
+	return walk(v, 0)
+}
+
+func rootIsGlobal(v ssa.Value) bool {
+	for i := 0; i < 8; i++ {
+		switch x := v.(type) {
+		case *ssa.Global:
+			return true
+		case *ssa.FieldAddr:
+			v = x.X
+		case *ssa.IndexAddr:
+			v = x.X
+		case *ssa.UnOp:
+			v = x.X
+		default:
+			return false
+		}
+	}
+	return false
+}
+
+// opField: the value is read from field `name` of the parameter op of the outermost function.
+func opField(name string) func(v ssa.Value, fr *fw.Frame) bool {
+	return func(v ssa.Value, fr *fw.Frame) bool {
+		if fr != nil {
+			return false
+		}
+		s := fw.Sig(v)
+		return strings.HasSuffix(s, "param:op."+name) || strings.HasSuffix(s, "param:op."+name+")")
+	}
+}
+
+// 1. ValidateToken: gates and what they are applied to
+func c20Gates(c *fw.Ctx) {
+	rule := "1 gates"
+	fn := mustFunc(c, rule, "tokens.ValidateToken")
+	if fn == nil {
+		return
+	}
+	succ := fw.ErrNilSuccess(fn, fw.ErrIndex(fn), nil)
+	c.CheckGate(rule, fn, "ValidateToken", fw.GuardCallErrNil("deSerializeMacaroon", fw.NameIs("gmsl/tokens.deSerializeMacaroon")), succ)
+	c.CheckGate(rule, fn, "ValidateToken", fw.GuardCallErrNil("VerifySignature", isVerifySignature), succ)
+	c.CheckGate(rule, fn, "ValidateToken", fw.GuardCallErrNil("verifyCaveats", fw.NameIs("gmsl/tokens.verifyCaveats")), succ)
+	stop := func(f *ssa.Function) bool { return fw.FuncName(f) == "gmsl/tokens.verifyCaveats" }
+	nSig := 0
+	for _, dc := range fw.DeepCalls(fn, isVerifySignature, stop) {
+		args := dc.Call.Common().Args
+		if len(args) < 2 {
+			continue
+		}
+		nSig++
+		pos := c.P.Pos(dc.Call.Pos())
+		c.CheckDerives(args[1], dc.Fr, fw.FlowSpec{IsSourceIn: opField("ServerPrivateKey")}, rule, "the signature is verified under the configured secret", pos, "", "the key given to VerifySignature ("+fw.Sig(args[1])+") is not op.ServerPrivateKey")
+		c.CheckDerives(args[0], dc.Fr, fw.FlowSpec{IsSource: fw.IsResultOf(fw.NameIs("gmsl/tokens.deSerializeMacaroon"), 0)}, rule, "the macaroon whose signature is verified is the decoded token", pos, "", "the macaroon given to VerifySignature is not the result of deSerializeMacaroon")
+	}
+	c.Expect(nSig > 0, rule, "ValidateToken reaches VerifySignature", c.P.Pos(fn.Pos()), "", "no VerifySignature call found under ValidateToken")
+	for _, dc := range fw.DeepCalls(fn, fw.NameIs("gmsl/tokens.verifyCaveats"), nil) {
+		args := dc.Call.Common().Args
+		pos := c.P.Pos(dc.Call.Pos())
+		c.CheckDerives(args[0], dc.Fr, fw.FlowSpec{IsSource: fw.IsResultOf(isVerifySignature, 0)}, rule, "the caveats checked are the ones the signature covers", pos, "", "verifyCaveats is given "+fw.Sig(args[0])+", not the conditions returned by VerifySignature")
+		c.CheckDerives(args[1], dc.Fr, fw.FlowSpec{IsSourceIn: opField("UserID")}, rule, "the verified caveats are checked for the configured user", pos, "", "verifyCaveats is given the user "+fw.Sig(args[1])+", not op.UserID")
+	}
+}
+
+type maskBit struct {
+	val  int64
+	cond fw.DNF
+	pos  string
+	op   token.Token
+}
+
+func hasAtom(t fw.Term, pos bool, subs ...string) bool { return termHas(t, lit{subs, pos}) }
+
+func prefixEvidence(t fw.Term, prefix string) bool {
+	q := `"` + prefix + `")`
+	return hasAtom(t, true, "strings.HasPrefix(", q) || hasAtom(t, true, "strings.CutPrefix(", q+"#1")
+}
+
+// remainder: the text after the prefix, as rendered in an atom
+func remainderForms(prefix string) []string {
+	return []string{fmt.Sprintf("[%d:]", len(prefix)), `"` + prefix + `")#0`, "strings.TrimPrefix("}
+}
+
+func mentionsAny(a string, subs []string) bool {
+	for _, s := range subs {
+		if strings.Contains(a, s) {
 			return true
 		}
-		classes := map[string]func(d fw.DNF) bool{
-			"generation caveat": func(d fw.DNF) bool { return every(d, lit{[]string{`== "gen = 1")`}, true}) },
-			"user caveat": func(d fw.DNF) bool {
-				return every(d, lit{[]string{"strings.HasPrefix(", `"user_id = ")`}, true}, lit{[]string{"[10:]", "param:userID"}, true})
-			},
-			"expiry caveat": func(d fw.DNF) bool {
-				return every(d, lit{[]string{"strings.HasPrefix(", `"time < ")`}, true}, lit{[]string{"gmsl/tokens.verifyExpiry("}, true})
-			},
-		}
-		required := int64(0)
-		for _, name := range []string{"generation caveat", "user caveat", "expiry caveat"} {
-			var found []bit
-			for _, b := range bits {
-				if classes[name](b.cond) {
-					found = append(found, b)
-				}
+	}
+	return false
+}
+
+// 2. the accumulator of verifyCaveats
+func c20Mask(c *fw.Ctx) {
+	rule := "2 caveat-mask"
+	fn := mustFunc(c, rule, "tokens.verifyCaveats")
+	if fn == nil {
+		return
+	}
+	var bits []maskBit
+	var adds []maskBit
+	unknownContribution := ""
+	collect := func(f *ssa.Function, outer fw.DNF, fr *fw.Frame) {}
+	_ = collect
+	for _, b := range fn.Blocks {
+		for _, ins := range b.Instrs {
+			bo, ok := ins.(*ssa.BinOp)
+			if !ok || (bo.Op != token.OR && bo.Op != token.ADD) {
+				continue
 			}
-			ok := len(found) == 1 && found[0].val != 0 && found[0].val&(found[0].val-1) == 0 && required&found[0].val == 0
-			c.Check(ok, "2 caveat-mask", "a verified "+name+" sets its own bit", c.P.Pos(fn.Pos()), "", fmt.Sprintf("%d bit operations under the %s condition: the presence of a valid %s is not recorded, so a token lacking it can validate", len(found), name, name))
-			if len(found) == 1 {
-				required |= found[0].val
+			if bt, isB := bo.Type().Underlying().(*types.Basic); !isB || bt.Info()&types.IsInteger == 0 {
+				continue
 			}
-		}
-		// the unknown-caveat bit
-		var unknownBit int64
-		for _, b := range bits {
-			known := false
-			for _, f := range classes {
-				if f(b.cond) {
-					known = true
-				}
+			// only accumulators: the result is carried around the loop
+			if !feedsPhi(bo) {
+				continue
 			}
-			if !known {
-				unknownBit |= b.val
+			here, okC := fw.CondAt(nil, b)
+			if !okC {
+				c.Undecided(rule, "mask contributions", "path condition too large")
+				continue
 			}
-		}
-		c.Check(unknownBit != 0 && unknownBit&required == 0, "2 caveat-mask", "an unknown caveat sets a bit outside the required ones", c.P.Pos(fn.Pos()), fmt.Sprint(unknownBit), fmt.Sprintf("unknown-caveat bit %d overlaps the required mask %d (or is missing)", unknownBit, required))
-		// success constant
-		okSucc := false
-		tbl, err := fw.ExtractTable(fn, fw.ErrIndex(fn))
-		if err == nil {
-			for _, r := range tbl.Rows {
-				if r.Outcome != "accept" {
+			for _, opnd := range []ssa.Value{bo.X, bo.Y} {
+				if n, isC := fw.ConstInt(opnd); isC {
+					mb := maskBit{n, here, c.P.Pos(fw.InstrPos(bo)), bo.Op}
+					if bo.Op == token.OR {
+						bits = append(bits, mb)
+					} else if condMentions(here, `"gen = 1"`, `"user_id = "`, `"time < "`) {
+						// a counter stepped under a caveat test (not the loop index)
+						adds = append(adds, mb)
+					}
 					continue
 				}
-				okSucc = true
-				for _, term := range r.Cond {
-					hit := false
-					for _, l := range term {
-						if l.Pos && strings.HasSuffix(l.Atom, fmt.Sprintf(" == %d)", required)) && strings.HasPrefix(l.Atom, "(phi(") {
-							hit = true
+				call, isCall := opnd.(*ssa.Call)
+				if !isCall {
+					continue
+				}
+				callee := fw.Followable(call, nil)
+				if callee == nil {
+					unknownContribution = fw.CalleeName(call)
+					continue
+				}
+				fr := &fw.Frame{Site: call, Callee: callee}
+				fw.WithSubst(fr.Subst(), func() {
+					t, err := fw.ExtractTable(callee, 0)
+					if err != nil {
+						unknownContribution = fw.FuncName(callee) + ": " + err.Error()
+						return
+					}
+					for _, r := range t.Rows {
+						n, isC := fw.ConstInt(r.Val)
+						if !isC {
+							unknownContribution = "the helper " + fw.FuncName(callee) + " returns a non-constant mask " + r.Outcome
+							continue
+						}
+						if n == 0 {
+							continue
+						}
+						mb := maskBit{n, andAll(here, r.Cond), c.P.Pos(fw.InstrPos(r.Ret)), bo.Op}
+						if bo.Op == token.OR {
+							bits = append(bits, mb)
+						} else {
+							adds = append(adds, mb)
 						}
 					}
-					if !hit {
-						okSucc = false
+				})
+			}
+		}
+	}
+	if len(bits) == 0 {
+		if len(adds) > 0 {
+			c.Fail(rule, "the caveat classes are recorded idempotently", adds[0].pos, fmt.Sprintf("verifyCaveats counts satisfied caveats (%d additions into a loop-carried counter, no bit set): the count is reached by repeating one class, so a token lacking a required caveat can validate", len(adds)))
+		} else {
+			c.Undecided(rule, "mask contributions", "verifyCaveats has no bit-mask accumulator the rule recognises")
+		}
+		return
+	}
+	c.Ok(rule, "the caveat classes are recorded idempotently", bits[0].pos, fmt.Sprintf("%d OR contributions", len(bits)))
+	every := func(d fw.DNF, f func(t fw.Term) bool) bool {
+		if len(d) == 0 {
+			return false
+		}
+		for _, term := range d {
+			if !f(term) {
+				return false
+			}
+		}
+		return true
+	}
+	const userP, timeP = "user_id = ", "time < "
+	classes := []struct {
+		name    string
+		related []string
+		is      func(t fw.Term) bool
+	}{
+		{"generation caveat", []string{`"gen = 1"`}, func(t fw.Term) bool { return hasAtom(t, true, `== "gen = 1")`) }},
+		{"user caveat", []string{`"` + userP + `"`}, func(t fw.Term) bool {
+			if hasAtom(t, true, `("`+userP+`" + param:userID)`, "==") {
+				return true
+			}
+			if !prefixEvidence(t, userP) {
+				return false
+			}
+			for _, rf := range remainderForms(userP) {
+				if hasAtom(t, true, rf, "param:userID", " == ") {
+					return true
+				}
+			}
+			return false
+		}},
+		{"expiry caveat", []string{`"` + timeP + `"`}, func(t fw.Term) bool {
+			if !prefixEvidence(t, timeP) {
+				return false
+			}
+			for _, rf := range remainderForms(timeP) {
+				if hasAtom(t, true, "gmsl/tokens.verifyExpiry(", rf) {
+					return true
+				}
+			}
+			return false
+		}},
+	}
+	required := int64(0)
+	decided := true
+	for _, cl := range classes {
+		var found, related []maskBit
+		for _, b := range bits {
+			if every(b.cond, cl.is) {
+				found = append(found, b)
+				continue
+			}
+			for _, term := range b.cond {
+				for _, l := range term {
+					if l.Pos && mentionsAny(l.Atom, cl.related) {
+						related = append(related, b)
 					}
 				}
 			}
 		}
-		c.Check(okSucc, "2 caveat-mask", "success iff the accumulated mask equals exactly the required bits", c.P.Pos(fn.Pos()), fmt.Sprint(required), fmt.Sprintf("the success return is not guarded by mask == %d (the OR of the generation, user and expiry bits)", required))
+		construct := "a verified " + cl.name + " sets its own bit"
+		switch {
+		case len(found) == 1 && found[0].val != 0 && found[0].val&(found[0].val-1) == 0 && required&found[0].val == 0:
+			c.Ok(rule, construct, found[0].pos, fmt.Sprint(found[0].val))
+			required |= found[0].val
+		case len(found) >= 1:
+			c.Fail(rule, construct, found[0].pos, fmt.Sprintf("%d contributions under the %s condition (values %v, bits already taken %d): the class does not own one bit of the mask", len(found), cl.name, bitVals(found), required))
+			decided = false
+		case len(related) > 0 || unknownContribution != "":
+			c.Undecided(rule, construct, "a contribution mentions the "+cl.name+" but not in a form the rule recognises"+unknownContribution)
+			decided = false
+		default:
+			c.Fail(rule, construct, c.P.Pos(fn.Pos()), fmt.Sprintf("0 bit operations under the %s condition: the presence of a valid %s is not recorded, so a token lacking it can validate", cl.name, cl.name))
+			decided = false
+		}
 	}
-	if fn := mustFunc(c, "2 caveat-mask", "tokens.verifyExpiry"); fn != nil {
-		tbl, err := fw.ExtractTable(fn, 0)
-		ok := err == nil
-		if ok {
-			for _, r := range tbl.Rows {
+	if !decided {
+		return
+	}
+	// the unknown-caveat bit
+	var unknownBit int64
+	for _, b := range bits {
+		known := false
+		for _, cl := range classes {
+			if every(b.cond, cl.is) {
+				known = true
+			}
+		}
+		if !known {
+			unknownBit |= b.val
+		}
+	}
+	c.Check(unknownBit != 0 && unknownBit&required == 0, rule, "an unknown caveat sets a bit outside the required ones", c.P.Pos(fn.Pos()), fmt.Sprint(unknownBit), fmt.Sprintf("unknown-caveat bit %d overlaps the required mask %d (or is missing)", unknownBit, required))
+	// success constant
+	tbl, err := fw.ExtractTable(fn, fw.ErrIndex(fn))
+	if err != nil {
+		c.Undecided(rule, "success iff the accumulated mask equals exactly the required bits", err.Error())
+		return
+	}
+	verdict, detail := "undecided", "no accepting return found"
+	for _, r := range tbl.Rows {
+		if r.Outcome != "accept" {
+			continue
+		}
+		if verdict == "undecided" {
+			verdict = "ok"
+		}
+		for _, term := range r.Cond {
+			hit, other := false, ""
+			for _, l := range term {
+				if !strings.HasPrefix(l.Atom, "(phi(") {
+					continue
+				}
 				switch {
-				case r.Outcome == "value:false":
-				case strings.HasPrefix(r.Outcome, "value:(param:now < strconv.ParseInt(param:t,10,64)#0)"):
-				default:
-					ok = false
+				case l.Pos && strings.HasSuffix(l.Atom, fmt.Sprintf(" == %d)", required)):
+					hit = true
+				case !l.Pos && strings.HasSuffix(l.Atom, fmt.Sprintf(" != %d)", required)):
+					hit = true
+				case l.Pos && strings.Contains(l.Atom, " == "):
+					other = l.Atom
+				}
+			}
+			switch {
+			case hit:
+			case other != "":
+				verdict, detail = "fail", fmt.Sprintf("success is returned under %s, not under mask == %d (the OR of the generation, user and expiry bits)", other, required)
+			default:
+				if verdict != "fail" {
+					verdict, detail = "undecided", "a success return is not guarded by a comparison of the mask with a constant"
 				}
 			}
 		}
-		c.Check(ok, "2 caveat-mask", "the expiry test is now < expiry (strict), false on an unparsable value", c.P.Pos(fn.Pos()), "", "verifyExpiry returns something else")
 	}
-	// 3. constants agree
+	construct := "success iff the accumulated mask equals exactly the required bits"
+	switch verdict {
+	case "ok":
+		c.Ok(rule, construct, c.P.Pos(fn.Pos()), fmt.Sprint(required))
+	case "fail":
+		c.Fail(rule, construct, c.P.Pos(fn.Pos()), detail)
+	default:
+		c.Undecided(rule, construct, detail)
+	}
+}
+
+func condMentions(d fw.DNF, subs ...string) bool {
+	for _, t := range d {
+		for _, l := range t {
+			if mentionsAny(l.Atom, subs) {
+				return true
+			}
+		}
+	}
+	return false
+}
+
+func bitVals(bs []maskBit) []int64 {
+	var out []int64
+	for _, b := range bs {
+		out = append(out, b.val)
+	}
+	return out
+}
+
+func feedsPhi(v ssa.Value) bool {
+	seen := map[ssa.Value]bool{}
+	var walk func(x ssa.Value, d int) bool
+	walk = func(x ssa.Value, d int) bool {
+		if d > 6 || seen[x] {
+			return false
+		}
+		seen[x] = true
+		for _, ref := range *x.Referrers() {
+			switch r := ref.(type) {
+			case *ssa.Phi:
+				return true
+			case *ssa.Convert:
+				if walk(r, d+1) {
+					return true
+				}
+			case *ssa.BinOp:
+				if (r.Op == token.OR || r.Op == token.ADD) && walk(r, d+1) {
+					return true
+				}
+			}
+		}
+		return false
+	}
+	return walk(v, 0)
+}
+
+// verifyExpiry: true only under a strict comparison of the clock with the parsed expiry
+func c20Expiry(c *fw.Ctx) {
+	rule := "2 caveat-mask"
+	construct := "the expiry test is now < expiry (strict), false on an unparsable value"
+	fn := mustFunc(c, rule, "tokens.verifyExpiry")
+	if fn == nil {
+		return
+	}
+	tbl, err := fw.ExtractTable(fn, 0)
+	if err != nil {
+		c.Undecided(rule, construct, err.Error())
+		return
+	}
+	tbl.SplitBoolValues(func(string) bool { return true })
+	const parsed = "strconv.ParseInt(param:t,10,64)#0"
+	nTrue := 0
+	verdict, detail := "ok", ""
+	for _, r := range tbl.Rows {
+		if r.Outcome == "value:false" {
+			continue
+		}
+		if r.Outcome != "value:true" {
+			if verdict == "ok" {
+				verdict, detail = "undecided", "verifyExpiry returns "+r.Outcome
+			}
+			continue
+		}
+		nTrue++
+		for _, t := range r.Cond {
+			strict := hasAtom(t, true, "(param:now < "+parsed+")") || hasAtom(t, true, "("+parsed+" > param:now)") || hasAtom(t, false, "(param:now >= "+parsed+")") || hasAtom(t, false, "("+parsed+" <= param:now)")
+			lax := hasAtom(t, true, "(param:now <= "+parsed+")") || hasAtom(t, true, "("+parsed+" >= param:now)") || hasAtom(t, false, "(param:now > "+parsed+")") || hasAtom(t, false, "("+parsed+" < param:now)")
+			parsedOK := hasAtom(t, true, "strconv.ParseInt(param:t,10,64)#1 == nil") || hasAtom(t, false, "strconv.ParseInt(param:t,10,64)#1 != nil")
+			mentionsNow := false
+			for _, l := range t {
+				if strings.Contains(l.Atom, "param:now") {
+					mentionsNow = true
+				}
+			}
+			switch {
+			case strict && parsedOK:
+			case lax:
+				verdict, detail = "fail", "verifyExpiry answers true when now == expiry (non-strict comparison): the token still validates after the requested seconds have elapsed"
+			case strict && !parsedOK:
+				verdict, detail = "fail", "verifyExpiry answers true without the value having parsed"
+			case mentionsNow:
+				if verdict == "ok" {
+					verdict, detail = "undecided", "verifyExpiry compares the clock in a form the rule does not recognise"
+				}
+			default:
+				verdict, detail = "fail", "verifyExpiry answers true on a path that does not compare the clock with the parsed expiry"
+			}
+		}
+	}
+	if nTrue == 0 && verdict == "ok" {
+		verdict, detail = "undecided", "no path on which verifyExpiry answers true was recognised"
+	}
+	switch verdict {
+	case "ok":
+		c.Ok(rule, construct, c.P.Pos(fn.Pos()), "")
+	case "fail":
+		c.Fail(rule, construct, c.P.Pos(fn.Pos()), detail)
+	default:
+		c.Undecided(rule, construct, detail)
+	}
+}
+
+func isConstStr(want string) func(v ssa.Value) bool {
+	return func(v ssa.Value) bool {
+		s, ok := fw.ConstString(v)
+		return ok && s == want
+	}
+}
+
+var clockThrough = fw.ThroughNames(map[string][]int{
+	"(time.Time).Unix":  {0},
+	"(time.Time).Add":   {0, 1},
+	"strconv.FormatInt": {0},
+	"strconv.Itoa":      {0},
+	"fmt.Sprint":        {0},
+	"fmt.Sprintf":       {0, 1, 2},
+})
+
+// 3. issuer and validator agree on the caveats; the macaroon id is the user
+func c20Issuer(c *fw.Ctx) {
+	rule := "3 constants"
 	pkg := c.P.Pkg("tokens")
 	consts := map[string]string{}
 	for _, n := range []string{"Gen", "UserPrefix", "TimePrefix"} {
@@ -186,54 +581,163 @@ func checkC20(c *fw.Ctx) {
 			consts[n] = constant.StringVal(v)
 		}
 	}
-	c.Check(consts["Gen"] == "gen = 1" && consts["UserPrefix"] == "user_id = " && consts["TimePrefix"] == "time < ", "3 constants", "caveat constants", "", fmt.Sprint(consts), fmt.Sprint(consts))
-	if fn := mustFunc(c, "3 constants", "tokens.generateBaseMacaroon"); fn != nil {
-		var added []string
-		for _, call := range fw.CallsTo(fn, false, func(n string) bool { return strings.HasSuffix(n, "Macaroon).AddFirstPartyCaveat") }) {
-			added = append(added, fw.Sig(call.Common().Args[1]))
+	c.Check(consts["Gen"] == "gen = 1" && consts["UserPrefix"] == "user_id = " && consts["TimePrefix"] == "time < ", rule, "caveat constants", "", fmt.Sprint(consts), fmt.Sprint(consts))
+	fn := mustFunc(c, rule, "tokens.GenerateLoginToken")
+	if fn != nil {
+		adds := fw.DeepCalls(fn, isAddCaveat, nil)
+		c.Count("issuer caveat sites", len(adds))
+		need := []struct {
+			name string
+			srcs []fw.FlowSpec
+		}{
+			{"the generation caveat", []fw.FlowSpec{{IsSource: isConstStr("gen = 1")}}},
+			{"the user caveat for the given user", []fw.FlowSpec{{IsSource: isConstStr("user_id = ")}, {IsSourceIn: opField("UserID")}}},
+			{"the expiry caveat", []fw.FlowSpec{{IsSource: isConstStr("time < ")}, {IsSource: fw.IsResultOf(fw.NameIs("time.Now"), -1)}}},
 		}
-		c.Check(len(added) == 2 && added[0] == `"gen = 1"` && added[1] == `("user_id = " + param:userID)`, "3 constants", "the issuer adds the generation caveat and the user caveat for the given user", c.P.Pos(fn.Pos()), strings.Join(added, " ; "), "caveats added: "+strings.Join(added, " ; "))
-		for _, call := range fw.CallsTo(fn, false, fw.NameIs("gopkg.in/macaroon.v2.New")) {
-			s := argSigs(call)
-			c.Check(s[0] == "param:secret" && s[1] == "param:userID", "3 constants", "the macaroon is minted under the secret with the user id as its id", c.P.Pos(call.Pos()), "", "macaroon.New("+strings.Join(s, ", ")+")")
-		}
-	}
-	if fn := mustFunc(c, "3 constants", "tokens.GetUserFromToken"); fn != nil {
-		ok := false
-		for _, r := range fw.Returns(fn) {
-			if strings.Contains(fw.Sig(r.Results[0]), "Macaroon).Id(") {
-				ok = true
+		for _, nd := range need {
+			best := fw.No
+			for _, dc := range adds {
+				args := dc.Call.Common().Args
+				if len(args) < 2 {
+					continue
+				}
+				all := fw.Yes
+				for _, sp := range nd.srcs {
+					sp.Arith = true
+					sp.Through = clockThrough
+					switch fw.Derives3In(args[1], dc.Fr, sp) {
+					case fw.No:
+						all = fw.No
+					case fw.Unknown:
+						if all == fw.Yes {
+							all = fw.Unknown
+						}
+					}
+				}
+				if all == fw.Yes || (all == fw.Unknown && best == fw.No) {
+					best = all
+				}
+			}
+			construct := "the issuer adds " + nd.name
+			switch {
+			case best == fw.Yes:
+				c.Ok(rule, construct, c.P.Pos(fn.Pos()), "")
+			case best == fw.Unknown || len(adds) == 0:
+				c.Undecided(rule, construct, "no AddFirstPartyCaveat site under GenerateLoginToken could be resolved to it")
+			default:
+				c.Fail(rule, construct, c.P.Pos(fn.Pos()), fmt.Sprintf("none of the %d AddFirstPartyCaveat sites under GenerateLoginToken adds %s: the validator requires it (tokens never validate) or, if the validator is relaxed with it, the binding is lost", len(adds), nd.name))
 			}
 		}
-		c.Check(ok, "3 constants", "GetUserFromToken returns the macaroon id", c.P.Pos(fn.Pos()), "", "no return of mac.Id()")
-	}
-	// 4/5. clock and expiry
-	if fn := mustFunc(c, "4 clock", "tokens.GenerateLoginToken"); fn != nil {
-		for _, call := range fw.CallsTo(fn, false, func(n string) bool { return strings.HasSuffix(n, "Macaroon).AddFirstPartyCaveat") }) {
-			s := fw.Sig(call.Common().Args[1])
-			want := `("time < " + strconv.FormatInt(((time.Time).Unix(time.Now()) + *&param:op.Duration),10))`
-			alt := `("time < " + strconv.Itoa(((time.Time).Unix(time.Now()) + *&param:op.Duration)))`
-			c.Check(s == want || s == alt, "4 clock", "the expiry caveat is exactly now (Unix seconds) + requested duration", c.P.Pos(call.Pos()), s, "expiry caveat is "+s+": it is not time.Now().Unix() + Duration (rounding, a relative clock or another offset changes when the token stops validating)")
+		for _, dc := range fw.DeepCalls(fn, fw.NameIs("gopkg.in/macaroon.v2.New"), nil) {
+			args := dc.Call.Common().Args
+			pos := c.P.Pos(dc.Call.Pos())
+			c.CheckDerives(args[0], dc.Fr, fw.FlowSpec{IsSourceIn: opField("ServerPrivateKey")}, rule, "the macaroon is minted under the configured secret", pos, "", "macaroon.New is given the key "+fw.Sig(args[0]))
+			c.CheckDerives(args[1], dc.Fr, fw.FlowSpec{IsSourceIn: opField("UserID")}, rule, "the macaroon id is the user id", pos, "", "macaroon.New is given the id "+fw.Sig(args[1])+", not op.UserID: GetUserFromToken reveals something else")
 		}
-		// default
-		okD := false
-		for _, b := range fn.Blocks {
-			for _, ins := range b.Instrs {
-				if st, ok := ins.(*ssa.Store); ok && strings.HasSuffix(fw.Sig(st.Addr), "param:op.Duration") && fw.Sig(st.Val) == "120" {
-					okD = strings.Contains(condsOf(b), "(*&param:op.Duration == 0)")
+	}
+	if fn := mustFunc(c, rule, "tokens.GetUserFromToken"); fn != nil {
+		isID := func(n string) bool { return strings.HasSuffix(n, "Macaroon).Id") }
+		best := fw.No
+		for _, r := range fw.Returns(fn) {
+			if len(r.Results) == 0 {
+				continue
+			}
+			switch fw.Derives3(r.Results[0], fw.FlowSpec{IsSource: fw.IsResultOf(isID, -1)}) {
+			case fw.Yes:
+				best = fw.Yes
+			case fw.Unknown:
+				if best == fw.No {
+					best = fw.Unknown
 				}
 			}
 		}
-		c.Check(okD, "5 default", "the 120 s default applies iff no duration was requested", c.P.Pos(fn.Pos()), "", "no store of 120 under Duration == 0")
+		construct := "GetUserFromToken returns the macaroon id"
+		switch {
+		case best == fw.Yes:
+			c.Ok(rule, construct, c.P.Pos(fn.Pos()), "")
+		case len(fw.DeepCalls(fn, isID, nil)) == 0:
+			c.Fail(rule, construct, c.P.Pos(fn.Pos()), "GetUserFromToken never reads the macaroon id, which is where the issuer puts the user")
+		default:
+			c.Undecided(rule, construct, "no return could be traced to mac.Id()")
+		}
+	}
+}
+
+// 4/5. clock and expiry
+func c20Clock(c *fw.Ctx) {
+	pkg := c.P.Pkg("tokens")
+	if fn := mustFunc(c, "4 clock", "tokens.GenerateLoginToken"); fn != nil {
+		nowOnly := fw.ThroughNames(map[string][]int{"(time.Time).Unix": {0}, "(time.Time).Add": {0}, "strconv.FormatInt": {0}, "strconv.Itoa": {0}, "fmt.Sprint": {0}, "fmt.Sprintf": {1, 2}})
+		for _, dc := range fw.DeepCalls(fn, isAddCaveat, nil) {
+			args := dc.Call.Common().Args
+			if len(args) < 2 || fw.Derives3In(args[1], dc.Fr, fw.FlowSpec{IsSource: isConstStr("time < "), Arith: true}) != fw.Yes {
+				continue
+			}
+			pos := c.P.Pos(dc.Call.Pos())
+			// the numeric part: everything but the prefix constant must come from the clock and the duration
+			c.CheckDerives(args[1], dc.Fr, fw.FlowSpec{IsSource: func(v ssa.Value) bool {
+				if isConstStr("time < ")(v) {
+					return true
+				}
+				if fw.IsResultOf(fw.NameIs("time.Now"), -1)(v) {
+					return true
+				}
+				if _, isC := v.(*ssa.Const); isC {
+					return true
+				}
+				s := fw.Sig(v)
+				return strings.HasSuffix(s, "param:op.Duration") || strings.HasSuffix(s, "param:op.Duration)")
+			}, Arith: true, All: true, Through: nowOnly}, "4 clock", "the expiry caveat is computed from time.Now().Unix() and the requested duration only", pos, "", "the expiry caveat "+fw.Sig(args[1])+" is not time.Now().Unix() + Duration (rounding, a relative clock or another offset changes when the token stops validating)")
+		}
+		// default duration
+		verdict, detail := "undecided", "no use of the 120 s default found"
+		for _, b := range fn.Blocks {
+			for _, ins := range b.Instrs {
+				switch x := ins.(type) {
+				case *ssa.Store:
+					if n, isC := fw.ConstInt(x.Val); isC && n == 120 {
+						if strings.Contains(condsOf(b), "Duration == 0)") {
+							verdict = "ok"
+						} else {
+							verdict, detail = "fail", "the default is stored under "+condsOf(b)+", not under Duration == 0"
+						}
+					}
+				case *ssa.Phi:
+					for i, e := range x.Edges {
+						n, isC := fw.ConstInt(e)
+						if !isC || n != 120 {
+							continue
+						}
+						conds := condsOf(b.Preds[i])
+						if strings.Contains(conds, "Duration == 0)") || strings.Contains(conds, "Duration) == 0)") {
+							verdict = "ok"
+						} else {
+							verdict, detail = "fail", "the default is chosen under "+conds+", not under Duration == 0"
+						}
+					}
+				}
+			}
+		}
+		switch verdict {
+		case "ok":
+			c.Ok("5 default", "the 120 s default applies iff no duration was requested", c.P.Pos(fn.Pos()), "")
+		case "fail":
+			c.Fail("5 default", "the 120 s default applies iff no duration was requested", c.P.Pos(fn.Pos()), detail)
+		default:
+			c.Undecided("5 default", "the 120 s default applies iff no duration was requested", detail)
+		}
 	}
 	if v, ok := fw.ConstValue(pkg, "defaultDuration"); ok {
 		n, _ := constant.Int64Val(v)
 		c.Check(n == 120, "5 default", "defaultDuration == 120", "", fmt.Sprint(n), fmt.Sprint(n))
 	}
 	if fn := mustFunc(c, "4 clock", "tokens.verifyCaveats"); fn != nil {
-		for _, call := range fw.CallsTo(fn, false, fw.NameIs("gmsl/tokens.verifyExpiry")) {
-			s := fw.Sig(call.Common().Args[1])
-			c.Check(s == "(time.Time).Unix(time.Now())", "4 clock", "the validator compares with the current Unix time", c.P.Pos(call.Pos()), s, "verifyExpiry is given "+s)
+		for _, dc := range fw.DeepCalls(fn, fw.NameIs("gmsl/tokens.verifyExpiry"), nil) {
+			args := dc.Call.Common().Args
+			if len(args) < 2 {
+				continue
+			}
+			c.CheckDerives(args[1], dc.Fr, fw.FlowSpec{IsSource: fw.IsResultOf(fw.NameIs("time.Now"), -1), Through: fw.ThroughNames(map[string][]int{"(time.Time).Unix": {0}})}, "4 clock", "the validator compares with the current Unix time", c.P.Pos(dc.Call.Pos()), "", "verifyExpiry is given "+fw.Sig(args[1])+", not time.Now().Unix()")
 		}
 	}
 	// no relative-clock accessor anywhere in the package
